@@ -66,6 +66,10 @@ func ParseOne(reader *bufio.Reader) (*ChangelogEntry, error) {
 	var header string
 	for {
 		line, err := reader.ReadString('\n')
+		if err == io.EOF && line != "" {
+			/* The last line lacks its newline; it's still a line. */
+			err = nil
+		}
 		if err != nil {
 			return nil, err
 		}
@@ -111,6 +115,14 @@ func ParseOne(reader *bufio.Reader) (*ChangelogEntry, error) {
 	/* OK, we've got the header. Let's zip down. */
 	for {
 		line, err := reader.ReadString('\n')
+		if err == io.EOF && line != "" {
+			err = nil
+		}
+		if err == io.EOF {
+			/* io.EOF means "no more entries" to our callers, but we're in
+			 * the middle of one. */
+			return nil, io.ErrUnexpectedEOF
+		}
 		if err != nil {
 			return nil, err
 		}
